@@ -209,7 +209,11 @@ def check(run, prog, tier):
                 # the room test: the read is control-dependent on `count < capacity`
                 roomy = False
                 c = f.branch_cond(b)
-                conds = [g for g, t, gb in cfgq.guards(f, b.id) if t]
+                # a guard says something about this read only if every way back to the read passes it again
+                def fresh_guard(gb, b=b):
+                    return f.reach_avoiding(b.live_succ(), lambda blk: blk.id == b.id, avoid_blocks=[gb]) is None
+                live_guards = [(g, t, gb) for g, t, gb in cfgq.guards(f, b.id) if fresh_guard(gb)]
+                conds = [g for g, t, gb in live_guards if t]
                 if c is not None:
                     conds.append(c)
                 for g in conds:
@@ -239,7 +243,7 @@ def check(run, prog, tier):
                                         written.add(strip(x["L"]).get("n"))
                                     if x.get("k") == "Un" and x.get("op") in ("++", "--") and strip(x["e"]).get("k") == "Ref":
                                         written.add(strip(x["e"]).get("n"))
-                        held = {show(strip(g)): t for g, t, gb in cfgq.guards(f, b.id)}
+                        held = {show(strip(g)): t for g, t, gb in live_guards}
                         cut = []
                         for rb in region:
                             c2 = f.branch_cond(rb)
